@@ -22,7 +22,7 @@ import warnings
 from . import c11 as C11
 
 LEVEL = "exploration"
-TECHNIQUE = "runtime monitoring, offline history checker: sequences of 2-5 runs (fresh subprocesses, bytecode writing enabled) over one cache directory, each with its own hook set / typechecker / import order / source edit; per run and module the observed (instrumented?, by which spy, source version) is compared with the stateless expectation; .pyc files created per run are recorded"
+TECHNIQUE = "runtime monitoring, offline history checker: sequences of 2-5 runs (fresh subprocesses, bytecode writing enabled) over one cache directory, each with its own hook set / typechecker / import order / source edit; per run and module the observed (instrumented?, by which spy, source version) is compared with the stateless expectation; .pyc files created per run are recorded; runs under python -O / -OO and -B, sources older than the library, re-hooking with another typechecker in one process, imports started deep inside the call stack"
 LEVEL_TEXT = (
     "Held on every generated history explored (each run a real interpreter start with PYTHONDONTWRITEBYTECODE unset, which "
     "this sandbox otherwise sets - the repository's suite can never read a cache back). Sampling over histories."
